@@ -74,7 +74,7 @@ def twin_fragments_order(e01: bool, e02: bool, e03: bool, e12: bool, e13: bool, 
 
 # ---------------------------------------------------------------------------------------------------------
 SDL2 = '''
-type Query { node(id: ID!): Node things: [Thing!]! user(f: Filter, c: Color, d: Date): User! search(kind: Kind): [Thing] }
+type Query { tagged: Tag lowerTagged: tag node(id: ID!): Node things: [Thing!]! user(f: Filter, c: Color, d: Date): User! search(kind: Kind): [Thing] }
 type Mutation { save(input: SaveInput!): User! }
 interface Node { id: ID! }
 interface Named implements Node { id: ID! name: String }
@@ -82,6 +82,8 @@ type User implements Node & Named { id: ID! name: String color: Color kind: Kind
 type Bot implements Node { id: ID! model: String! kind: Kind built: Stamp }
 type Dog implements Node { id: ID! barks: Boolean! }
 type Cat implements Node { id: ID! lives: Int }
+type Tag { id: ID! label: String }
+type tag { id: ID! weight: Int }
 union Thing = User | Bot | Dog | Cat
 enum Color { RED GREEN BLUE }
 enum Kind { A B C }
@@ -162,13 +164,15 @@ def run_pipeline(strategy: str, oracle, split_files: bool, preexisting: int, plu
             f.write(Q2)
         with open(os.path.join(base, "scal.py"), "w") as f:
             f.write("from datetime import date\ndef parse_date(v):\n    return date.fromisoformat(v)\ndef ser_date(v):\n    return v.isoformat()\n")
-        if strategy == "client":
+        if strategy in ("client", "client_custom"):
             section = {"schema_path": schema_path, "queries_path": os.path.join(base, "q.graphql"), "target_package_path": base, "target_package_name": "gcl",
                        "include_comments": "stable", "include_all_inputs": False, "include_all_enums": False,
                        "scalars": {"Date": {"type": "datetime.date", "parse": "scal.parse_date", "serialize": "scal.ser_date"},
                                    # a type that lives inside the target package itself (absolute import of the package being generated)
                                    "Stamp": {"type": "gcl.stamps.Stamp"}},
                        "plugins": PLUGINS if plugins else []}
+            if strategy == "client_custom":
+                section["enable_custom_operations"] = True
             target = os.path.join(base, "gcl")
         else:
             section = {"schema_path": schema_path, "target_file_path": os.path.join(base, "out_schema.py" if strategy == "schema_py" else "out_schema.graphql")}
@@ -181,14 +185,14 @@ def run_pipeline(strategy: str, oracle, split_files: bool, preexisting: int, plu
         def one_run():
             with contextlib.redirect_stdout(io.StringIO()), warnings.catch_warnings():
                 warnings.simplefilter("ignore")
-                if strategy == "client":
+                if strategy in ("client", "client_custom"):
                     _main.client(cfg)
                 else:
                     _main.graphql_schema(cfg)
 
         if preexisting:
             # the output of a previous CLI invocation on the same inputs (produced by another process) is already there
-            if strategy == "client":
+            if strategy in ("client", "client_custom"):
                 os.makedirs(target, exist_ok=True)
                 for fn, text in (pre_files or {}).items():
                     with open(os.path.join(target, fn), "w") as f:
@@ -305,7 +309,8 @@ def parts_source() -> str:
             for c in (False, True):
                 out.append(f"def check_fragorder_{int(a)}{int(b)}{int(c)}(e12: bool, e13: bool, e23: bool, r0: int, r1: int, r2: int, r3: int) -> bool:\n"
                            f"    \"\"\"\n    post: _\n    \"\"\"\n    return _fragments_order({a}, {b}, {c}, e12, e13, e23, r0, r1, r2, r3)\n")
-    for name, strategy, plugins in (("client_plain", "client", False), ("client_plugins", "client", True), ("schema_py", "schema_py", False), ("schema_graphql", "schema_graphql", False)):
+    for name, strategy, plugins in (("client_plain", "client", False), ("client_plugins", "client", True), ("client_custom", "client_custom", False), ("schema_py", "schema_py", False),
+                                   ("schema_graphql", "schema_graphql", False)):
         for salt in range(4):
             out.append(f"def check_{name}_s{salt}(perm: int, scen: int) -> bool:\n    \"\"\"\n    post: _\n    \"\"\"\n"
                        f"    return _pipeline_check({strategy!r}, {plugins}, perm, {salt}, scen)\n")
